@@ -65,7 +65,9 @@ impl Eq for SYt {}
 pub struct Vr<T>(pub T);
 impl<T: Tok + Signature> Tok for Vr<T> {
     fn from_tok(a: &mut Args) -> Self {
-        Vr(Var::<T>::from_tok(a).0)
+        assert_eq!(a.next(), "v");
+        let _sig = a.next();
+        Vr(T::from_tok(a))
     }
     fn to_tok(&self, out: &mut Vec<String>, s: bool) {
         out.push("v".into());
